@@ -139,13 +139,64 @@ func (fw *FileWriter) openExistingFile() error {
 	fw.blockCount = fw.header.BlockCount
 	fw.entryCount = fw.header.EntryCount
 
+	// Find the end of the last complete block. A crash during an append can leave a partial block
+	// (or partial block header) at the tail; appending behind it would make every later block
+	// unreachable for the reader, so the torn tail is cut off first.
+	end, err := fw.endOfCompleteBlocks()
+	if err != nil {
+		file.Close()
+		return err
+	}
+	info, err := file.Stat()
+	if err != nil {
+		file.Close()
+		return err
+	}
+	if end < info.Size() {
+		if err := file.Truncate(end); err != nil {
+			file.Close()
+			return err
+		}
+	}
+
 	// Seek to end for appending
-	if _, err := file.Seek(0, io.SeekEnd); err != nil {
+	if _, err := file.Seek(end, io.SeekStart); err != nil {
 		file.Close()
 		return err
 	}
 
 	return nil
+}
+
+// endOfCompleteBlocks walks the block headers (without reading payloads) and returns the offset
+// just past the last block that is completely present in the file.
+func (fw *FileWriter) endOfCompleteBlocks() (int64, error) {
+	info, err := fw.file.Stat()
+	if err != nil {
+		return 0, err
+	}
+	size := info.Size()
+	pos := fw.header.DataStartOffset()
+	if pos > size {
+		// the swamp name after the header was never completely written: no block can exist yet
+		return size, nil
+	}
+	headerBuf := make([]byte, BlockHeaderSize)
+	for pos+BlockHeaderSize <= size {
+		if _, err := fw.file.ReadAt(headerBuf, pos); err != nil {
+			return 0, err
+		}
+		var bh BlockHeader
+		if err := bh.Deserialize(headerBuf); err != nil {
+			return 0, err
+		}
+		next := pos + BlockHeaderSize + int64(bh.CompressedSize)
+		if next > size {
+			break
+		}
+		pos = next
+	}
+	return pos, nil
 }
 
 // WriteEntry adds an entry to the buffer and flushes if necessary
